@@ -95,6 +95,10 @@ def run(pid, tier):
                 must_fire=['ARegister', 'ACancel', 'AChange', 'ANotify', 'AReset'], timeout=3000, xmx='16g')
     if mcst['violated']:
         raise V.Infra('MC_Observe violated (specification error):\n' + mcst['out'][-2500:])
+    # the dirty flag as libcoap keeps it (one per resource): the model finds the repeated registration value (KF_C11_PENDING_CHANGE_REPEATS_REGISTRATION_VALUE)
+    neg = V.tlc('MC_Observe', 'MC_Observe_asbuilt.cfg', workers=2, deque=False, timeout=600)
+    if 'Invariant MonotoneStrict is violated' not in neg['out']:
+        raise V.Infra('MC_Observe sanity: the resource-wide dirty flag is NOT rejected by the model')
     cases = gen(tier, rnd)
     jobs = []
     for ci in range(V.NCPU):
